@@ -59,7 +59,9 @@ def run(ctx):
     if quick:
         # a sample of all patterns, plus longer ones with two and three stars whose literal pieces repeat (the pieces of a pattern must be found in order, without overlap)
         longer = ["".join(t) for n in (5, 6) for t in itertools.product("ab*", repeat=n) if 2 <= t.count("*") <= 3 and t[0] != "*"]
-        pats = rng.sample(pats, 300) + rng.sample(longer, 150) + ["a**a*", "a*a*a*", "a*b*b*", "ab*b*a", "a*a*a", "a*ab*b", "aa*a*a*"]
+        pats = rng.sample(pats, 300) + rng.sample(longer, 150) + ["a**a*", "a*a*a*", "a*b*b*", "ab*b*a", "a*a*a", "a*ab*b", "aa*a*a*",
+                                                                   # one star, the text before it ending as the text after it begins (a name shorter than both together must not match)
+                                                                   "a*a", "ab*b", "ab*ba", ".a*a.", "aa*a", "a*aa", "ab*ab", "b.*.b", "a.*.a"]
     chunks = [pats[i:i + 150] for i in range(0, len(pats), 150)]
     cases = [{"op": "glob", "tree": [[n, False] for n in names], "patterns": ch} for ch in chunks]
     res = vh.run_cases(cases, shards=8, timeout_ms=120000)
